@@ -141,6 +141,9 @@ func (r *sumRun) finish(honest bool) {
 		res.Fail(r.prop, "no-panic", "a lookup goroutine panicked", "%s", firstLines(p, 12))
 	}
 	res.Probes["context-switches"] += r.s.Switches
+	if r.s.PCT > 0 {
+		res.Probes["priority-scheduled-run"]++
+	}
 }
 
 func firstLines(s string, n int) string {
